@@ -56,7 +56,64 @@ class C14(scen.PairProp):
             ps = rng.choice([60, 120, 178])
             rows = rng.randint(4, 9)
             gap = 1.0
-            if rng.random() < 0.7:
+            r_mode = rng.random()
+            if r_mode < 0.25:
+                # server mode: a hold-up, then the peal speed is changed; later strikes must still be
+                # exactly the hold-up later than in the session without it
+                origin = 1000.0
+                t0 = origin + 0.5 + rng.random()
+                # (the change lands between places 0 and 1 of a row: both must be Wheatley's, because a
+                # wait that is already in progress is not re-timed by the change)
+                humans = sorted(rng.sample(range(3, N + 1), rng.randint(1, N - 2)))
+                ps = 180
+                ps2 = rng.choice([150, 200, 240])
+                rows = 10
+                name = "Wheatley"
+                wb = [b for b in range(1, N + 1) if b not in humans]
+                I = scen.interval(ps, N)
+                D = rng.choice([0.3, 1.0, 2.5]) * rng.uniform(0.9, 1.1)
+                r0 = rng.randint(1, 3)
+                hb = rng.choice(humans)
+                k = math.floor((D + 0.001) / 0.01) + 1
+                delta_true = k * 0.01
+                delta = max(0, k - 2) * 0.01
+                r_sp = rng.randint(5, 7)
+                t_sp = t0 + 3 + I * scen.blow_index(N, gap, r_sp, 0) + 0.4 * I
+                I2 = scen.interval(ps2, N)
+
+                def band(shift_after, shift, late_at, late_by):
+                    ev = []
+                    for r in range(rows):
+                        for b in humans:
+                            p = b - 1
+                            bt = scen.blow_index(N, gap, r, p)
+                            cur = scen.blow_index(N, gap, r_sp, 0) + 0.4
+                            if bt <= cur:
+                                t = t0 + 3 + I * bt
+                            else:
+                                t = t0 + 3 + I * cur + I2 * (bt - cur)
+                            t -= 0.004
+                            if shift_after is not None and (r, p) > shift_after:
+                                t += shift
+                            if late_at == (r, p):
+                                t += late_by + 0.004
+                            ev.append([t, "strike", b])
+                    return ev
+
+                def mk(evs, dshift):
+                    return {"start": origin, "end": t0 + 3 + I * scen.blow_index(N, gap, rows, 0) * 1.5 + 6,
+                            "tower_size": N,
+                            "events": [call(t0, LOOK_TO),
+                                       [t_sp + dshift, "msg", {"m": "setting", "kvs": [["peal_speed", ps2]]}]] + evs,
+                            "on_join": scen.humans_on_join(humans, name, wb),
+                            "bot": scen.bot_cfg({"type": "plainhunt", "stage": N, "start_row": None}, user_name=name,
+                                                server_id=4, up_down_in=False),
+                            "rhythm": scen.rhythm_cfg("wait", inertia=1.0, peal_speed=ps, gap=gap, initial_inertia=1.0)}
+                scA = mk(band(None, 0, None, 0), 0.0)
+                scB = mk(band((r0, hb - 1), delta, (r0, hb - 1), D), delta_true)
+                yield {"k": "pair", "scenarios": [scA, scB], "mode": "holdup", "D": D, "at": [r0, hb - 1], "t0": t0,
+                       "I": I, "N": N, "speed_change": True}
+            elif r_mode < 0.75:
                 origin = 1000.0
                 t0 = origin + rng.random()
                 scA, I = base_scenario(rng, N, humans, ps, origin, t0, rows)
